@@ -204,6 +204,130 @@ class Item:
             self.rewrites.append({"rule": "R1", "what": "deleted %d log::*! statements" % n})
         return self
 
+    def desugar_option_closures(self):
+        """R8, generic: Option combinators that take a closure are rewritten into the `match` their std definition is:
+             r.map(|x| e)           -> (match r { Some(x) => Some(e), None => None })
+             r.and_then(|x| e)      -> (match r { Some(x) => e, None => None })
+             r.map_or(d, |x| e)     -> (match r { Some(x) => e, None => d })
+             r.is_some_and(|x| e)   -> (match r { Some(x) => e, None => false })
+             r.ok_or_else(|| e)     -> (match r { Some(verif_v) => Ok(verif_v), None => Err(e) })
+             r.unwrap_or_else(|| e) -> (match r { Some(verif_v) => verif_v, None => e })
+        The receiver r is the postfix chain in front of the call.  A closure whose body contains `?` or `return` is left alone (control flow would change).
+        Nothing here knows the receiver's type: on an iterator or a Result the rewritten text does not type-check and the unit is UNDECIDED (never an alarm)."""
+        n = 0
+        for _ in range(40):
+            src = self.text
+            toks = code_tokens(src)
+            done = False
+            for k, (kind, a, b) in enumerate(toks):
+                name = src[a:b]
+                if kind != "ident" or name not in ("map", "and_then", "map_or", "is_some_and", "ok_or_else", "unwrap_or_else"):
+                    continue
+                if k < 1 or src[toks[k - 1][1]] != "." or k + 1 >= len(toks) or src[toks[k + 1][1]] != "(":
+                    continue
+                close = match_brace(src, toks, k + 1, "(", ")")
+                # ---- arguments: [default ,] |x| body
+                i = k + 2
+                default = None
+                if name == "map_or":
+                    depth, j = 0, i
+                    while j < close:
+                        ch = src[toks[j][1]]
+                        if toks[j][0] == "punct" and ch in "([{":
+                            depth += 1
+                        elif toks[j][0] == "punct" and ch in ")]}":
+                            depth -= 1
+                        elif toks[j][0] == "punct" and ch == "," and depth == 0:
+                            break
+                        j += 1
+                    if j >= close:
+                        continue
+                    default = src[toks[i][1]:toks[j - 1][2]]
+                    i = j + 1
+                if i >= close or src[toks[i][1]] != "|":
+                    continue
+                if name in ("ok_or_else", "unwrap_or_else"):
+                    if src[toks[i + 1][1]] != "|":
+                        continue
+                    param, body_from = None, i + 2
+                else:
+                    if toks[i + 1][0] != "ident" or src[toks[i + 2][1]] != "|":
+                        continue
+                    param, body_from = src[toks[i + 1][1]:toks[i + 1][2]], i + 3
+                if body_from >= close:
+                    continue
+                last = close - 1
+                if src[toks[last][1]] == ",":
+                    last -= 1
+                body = src[toks[body_from][1]:toks[last][2]]
+                btoks = [src[t[1]:t[2]] for t in toks[body_from:last + 1]]
+                if "?" in btoks or "return" in btoks or "|" in btoks:
+                    continue
+                # ---- receiver: postfix chain in front of `.name`
+                r = k - 2
+                start = None
+                while r >= 0:
+                    ch = src[toks[r][1]]
+                    if toks[r][0] == "punct" and ch in ")]":
+                        opener = {")": "(", "]": "["}[ch]
+                        depth, j = 0, r
+                        while j >= 0:
+                            cj = src[toks[j][1]]
+                            if toks[j][0] == "punct" and cj == ch:
+                                depth += 1
+                            elif toks[j][0] == "punct" and cj == opener:
+                                depth -= 1
+                                if depth == 0:
+                                    break
+                            j -= 1
+                        if j < 0:
+                            break
+                        start = j
+                        r = j - 1
+                        if r >= 0 and toks[r][0] == "ident" and src[toks[r][1]:toks[r][2]] not in ("if", "match", "while", "in", "return", "let", "else"):
+                            continue
+                        if r >= 0 and src[toks[r][1]] == ".":
+                            r -= 1
+                            continue
+                        break
+                    if toks[r][0] == "ident" or (toks[r][0] == "punct" and ch == "?"):
+                        if toks[r][0] == "ident" and src[toks[r][1]:toks[r][2]] in ("if", "match", "while", "in", "return", "let", "else", "mut"):
+                            break
+                        start = r
+                        r -= 1
+                        if r >= 0 and src[toks[r][1]] == ".":
+                            r -= 1
+                            continue
+                        if r >= 1 and src[toks[r][1]] == ":" and src[toks[r - 1][1]] == ":":
+                            r -= 2
+                            continue
+                        break
+                    break
+                if start is None:
+                    continue
+                recv = src[toks[start][1]:toks[k - 2][2]]
+                if name == "map":
+                    new = "(match %s { Some(%s) => Some(%s), None => None })" % (recv, param, body)
+                elif name == "and_then":
+                    new = "(match %s { Some(%s) => %s, None => None })" % (recv, param, body)
+                elif name == "map_or":
+                    new = "(match %s { Some(%s) => %s, None => %s })" % (recv, param, body, default)
+                elif name == "is_some_and":
+                    new = "(match %s { Some(%s) => %s, None => false })" % (recv, param, body)
+                elif name == "ok_or_else":
+                    new = "(match %s { Some(verif_v) => Ok(verif_v), None => Err(%s) })" % (recv, body)
+                else:
+                    new = "(match %s { Some(verif_v) => verif_v, None => %s })" % (recv, body)
+                self.text = src[:toks[start][1]] + new + src[toks[close][2]:]
+                n += 1
+                done = True
+                break
+            if not done:
+                break
+        if n:
+            self.rewrites.append({"rule": "R8", "what": "%d Option combinator(s) with a closure (map / and_then / map_or / is_some_and / ok_or_else / unwrap_or_else) desugared to the match of their std definition" % n})
+        return self
+
     def drop_attrs(self):
         """R2: delete #[...] attributes and doc comments inside the extracted text."""
         src = self.text
